@@ -60,7 +60,7 @@ fn main() {
 }
 
 /// contracts that run JIT evaluators in-process (`total` manages its own children)
-const JIT_IN_PROCESS: [&str; 12] = ["solver_linear", "render_handle", "solver_bind", "shape_transform", "jit_point", "jit_bulk", "jit_interval", "jit_interval_valid", "jit_grad", "jit_trace", "simplify_sem", "reuse"];
+const JIT_IN_PROCESS: [&str; 13] = ["interval_sweep", "solver_linear", "render_handle", "solver_bind", "shape_transform", "jit_point", "jit_bulk", "jit_interval", "jit_interval_valid", "jit_grad", "jit_trace", "simplify_sem", "reuse"];
 
 fn guarded(contract: &str, rest: &[String]) -> serde_json::Value {
     let died = |what: String| {
@@ -97,6 +97,7 @@ pub fn run(contract: &str, thorough: bool, seed: u64) -> Report {
         "interp_point" => c_interp::interp_point(thorough),
         "interp_bulk" => c_interp::interp_bulk(thorough),
         "interp_interval" => c_interp::interp_interval(thorough),
+        "interval_sweep" => c_interp::interval_sweep(thorough),
         "flatten" => c_flatten::flatten(thorough, seed),
         "alloc_cex" => c_alloc::alloc_cex(thorough, seed),
         "alloc_small_n" => c_alloc::alloc_small_n(thorough, seed),
@@ -134,6 +135,7 @@ fn replay(v: &serde_json::Value) -> i32 {
         "flatten" => c_flatten::replay(v),
         "interp_point" | "interp_bulk" | "interp_interval" => c_interp::replay(v),
         "jit_bulk_guard" => c_jit::guard_replay(v),
+        "interval_sweep" => c_interp::sweep_replay(v),
         "jit_point" | "jit_bulk" | "jit_interval" | "jit_interval_valid" | "jit_grad" => c_jit::replay(v),
         "trace_vm" | "jit_trace" => c_trace::replay(v),
         "simplify_sem" => c_simplify::replay(v),
